@@ -372,7 +372,7 @@ Lemma pass_judged ps : forall imgs limit read rd imgs' shares,
   poll_seq pk imgs limit read = (rd, imgs', shares) ->
   (forall sl', In sl' imgs' -> pos_at ps (slot_id sl') = im_pos (slot_image sl')) ->
   judge_shares jp_gen cnt (map oslot_of imgs) (concat (map (map raw) shares)) limit read ps = (true, rd) /\
-  Forall2 (fun sl sh => forall d, In d sh -> f_session (snd d) = slot_session sl) imgs shares /\
+  Forall2 (fun sl sh => forall d, In d sh -> In d (seg_frames (oslot_of sl))) imgs shares /\
   Forall2 (fun sl sl' => slot_ok sl' /\ im_closed (slot_image sl') = false /\ slot_log sl' = slot_log sl /\
                          slot_session sl' = slot_session sl /\ slot_id sl' = slot_id sl /\
                          oslot_of sl' = os_with_pos (oslot_of sl) (im_pos (slot_image sl'))) imgs imgs'.
@@ -425,7 +425,8 @@ Proof. induction imgs as [|sl r IH]; intros limit read rd imgs' shares Hg Hnd E 
         { inversion J2; subst. destruct Hsh2. }
         inversion J2 as [|? ? ? ? Hhead Htail]; subst. inversion Hgr as [|? ? (Hok2 & Hop2 & Hraw2) Hgr2]; subst.
         cbn [map] in Hnotin. destruct Hsh2 as [->|Hsh2].
-        -- rewrite Hraw2 by (apply Hhead; assumption). rewrite fo_session_frag_obs, (Hhead d Hd).
+        -- assert (Hsd : f_session (snd d) = slot_session s2) by (apply seg_frames_session; [assumption|apply Hhead; assumption]).
+           rewrite Hraw2 by assumption. rewrite fo_session_frag_obs, Hsd.
            intros Heq. apply Hnotin. left. exact Heq.
         -- apply (IHr l'); try assumption. intros Hc. apply Hnotin. right. exact Hc.
     + constructor; assumption.
@@ -491,3 +492,120 @@ Proof. intros Hfacts Hg E. destruct imgs as [|sl r]; [reflexivity|]. cbn [map fa
   destruct sh as [|d sh']; [contradiction|]. cbn [map concat app].
   assert (Hs : f_session (snd d) = slot_session sl) by (apply seg_frames_session; [assumption|apply A7; left; reflexivity]).
   rewrite (Hraw d Hs), fo_session_frag_obs, Hs. destruct sl as [[[[[? ?] ?] ?] ?] ?]. cbn. apply Z.eqb_refl. Qed.
+
+(* ---- the assembler part ---- *)
+Lemma run1_none : forall xs st, fst (run1 st xs) = None -> st = None.
+Proof. induction xs as [|[fl p] r IH]; intros st H; [exact H|]. cbn [run1] in H.
+  destruct (step1 st fl p) as [st1 o1] eqn:E1. destruct (run1 st1 r) as [st2 o2] eqn:E2. cbn [fst] in H.
+  assert (st1 = None) by (apply IH; rewrite E2; exact H). subst st1.
+  unfold step1 in E1. destruct (has_flags fl F_UNFRAG); [inversion E1; reflexivity|].
+  destruct (has_flags fl F_BEGIN); [inversion E1|]. destruct st as [acc|]; [|reflexivity].
+  destruct (length acc =? 0)%nat; [inversion E1|]. destruct (has_flags fl F_END); inversion E1. Qed.
+
+Lemma assemble_sessions_subset : forall xs bs s mm, In (s, mm) (snd (assemble bs xs)) -> exists x, In x xs /\ fr_session x = s.
+Proof. induction xs as [|x r IH]; intros bs s mm H; [destruct H|]. cbn [assemble] in H.
+  destruct (on_fragment bs x) as [bs1 out1] eqn:E1. destruct (assemble bs1 r) as [bs2 out2] eqn:E2. cbn [snd] in H.
+  apply in_app_or in H as [H|H].
+  - exists x. split; [left; reflexivity|]. unfold on_fragment in E1.
+    destruct (has_flags (fr_flags x) F_UNFRAG); [inversion E1; subst; destruct H as [H|[]]; inversion H; reflexivity|].
+    destruct (has_flags (fr_flags x) F_BEGIN); [inversion E1; subst; destruct H|].
+    destruct (bget bs (fr_session x)) as [acc|]; [|inversion E1; subst; destruct H].
+    destruct (HDR + Z.of_nat (length acc) =? HDR); [inversion E1; subst; destruct H|].
+    destruct (has_flags (fr_flags x) F_END); inversion E1; subst; [destruct H as [H|[]]; inversion H; reflexivity|destruct H].
+  - assert (H' : In (s, mm) (snd (assemble bs1 r))) by (rewrite E2; exact H).
+    destruct (IH _ _ _ H') as (y & Hy & Hs). exists y. split; [right; assumption|assumption]. Qed.
+
+Lemma filter_msg_obs se out :
+  filter (fun d : mobs => let '(s, _, _) := d in s =? se) (map msg_obs out) = map msg_obs (of_session se out).
+Proof. induction out as [|[s mm] r IH]; [reflexivity|]. cbn [map filter of_session fst msg_obs].
+  destruct (s =? se); cbn [map]; rewrite IH; reflexivity. Qed.
+
+Lemma mobs_list_refl l : list_eqb mobs_eqb l l = true.
+Proof. induction l as [|[[a b] c] r IH]; [reflexivity|]. cbn [list_eqb mobs_eqb]. rewrite !Z.eqb_refl, IH. reflexivity. Qed.
+
+Lemma nodup_session_inj (l : list slot) a b : NoDup (map slot_session l) -> In a l -> In b l -> slot_session a = slot_session b -> a = b.
+Proof. induction l as [|x r IH]; intros Hnd Ha Hb He; [destruct Ha|]. cbn [map] in Hnd. inversion Hnd as [|? ? Hni Hr]; subst.
+  destruct Ha as [->|Ha]; destruct Hb as [->|Hb]; auto.
+  - exfalso. apply Hni. rewrite He. apply in_map. assumption.
+  - exfalso. apply Hni. rewrite <- He. apply in_map. assumption. Qed.
+
+Section Sessions.
+Variable m : mode.
+Variable raw : dlv -> fobs.
+Variable present : list slot.
+Hypothesis Hgood : Forall (good m raw) present.
+Hypothesis Hnd : NoDup (map slot_session present).
+Variable ds : list dlv.
+(* every fragment comes from the segment of a present image *)
+Hypothesis Hds : forall d, In d ds -> exists sl, In sl present /\ In d (seg_frames (oslot_of sl)).
+
+Lemma ds_session d : In d ds -> exists sl, In sl present /\ f_session (snd d) = slot_session sl /\ In d (seg_frames (oslot_of sl))
+                                  /\ raw d = frag_obs m (slot_log sl) d.
+Proof. intros Hd. destruct (Hds d Hd) as (sl & Hsl & Hin). rewrite Forall_forall in Hgood. destruct (Hgood sl Hsl) as (Hok & _ & Hraw).
+  exists sl. pose proof (seg_frames_session sl d Hok Hin). repeat split; auto. Qed.
+
+Lemma session_frags_proj sl : In sl present ->
+  session_frags (oslot_of sl) (map raw ds) = proj (slot_session sl) (map frag_of ds).
+Proof. intros Hsl. unfold session_frags, proj.
+  assert (Hse : os_session (oslot_of sl) = slot_session sl) by (destruct sl as [[[[[? ?] ?] ?] ?] ?]; reflexivity). rewrite Hse.
+  assert (Hall : forall d, In d ds -> In d ds) by auto. revert Hall. generalize ds at 1 3 4 as l.
+  induction l as [|d r IH]; intros Hall; [reflexivity|]. cbn [map filter].
+  destruct (ds_session d (Hall d (or_introl eq_refl))) as (sl2 & Hsl2 & Hs2 & Hin2 & Hraw2).
+  assert (Hfs : fo_session (raw d) = f_session (snd d)) by (rewrite Hraw2; apply fo_session_frag_obs).
+  rewrite Hfs. cbn [frag_of fr_session].
+  assert (IH' := IH (fun x Hx => Hall x (or_intror Hx))).
+  destruct (f_session (snd d) =? slot_session sl) eqn:E; [|exact IH'].
+  cbn [map]. rewrite IH'. f_equal.
+  assert (sl2 = sl) by (apply (nodup_session_inj present); auto; lia). subst sl2.
+  rewrite Hraw2. destruct d as [o f]. unfold frag_obs, fo_flags, fo_offset. cbn [fr_flags fr_payload frag_of snd].
+  replace (o + HDR - HDR) with o by lia.
+  rewrite Forall_forall in Hgood. destruct (Hgood sl Hsl) as (Hok & _ & _).
+  pose proof (seg_frames_body sl (o, f) Hok Hin2) as Hb. cbn [fst snd] in Hb. rewrite Hb. reflexivity. Qed.
+
+Lemma sessions_judged bs : forall (L : list slot) spec,
+  (forall sl, In sl L -> In sl present) -> NoDup (map slot_session L) ->
+  (forall sl, In sl L -> bget spec (slot_session sl) = bget bs (slot_session sl)) ->
+  let out := snd (assemble bs (map frag_of ds)) in
+  let bs' := fst (assemble bs (map frag_of ds)) in
+  fst (judge_sessions (map oslot_of L) (map raw ds) (map msg_obs out) spec) = true /\
+  (forall se, bget (snd (judge_sessions (map oslot_of L) (map raw ds) (map msg_obs out) spec)) se
+              = if existsb (fun sl => slot_session sl =? se) L then bget bs' se else bget spec se).
+Proof. cbv zeta. induction L as [|sl r IH]; intros spec Hsub HndL Hspec; [split; reflexivity|].
+  cbn [map judge_sessions]. cbn [map] in HndL. inversion HndL as [|? ? Hni HndR]; subst.
+  assert (Hse : os_session (oslot_of sl) = slot_session sl) by (destruct sl as [[[[[? ?] ?] ?] ?] ?]; reflexivity). rewrite Hse.
+  remember (slot_session sl) as se eqn:Ese.
+  rewrite (session_frags_proj sl (Hsub sl (or_introl eq_refl))). rewrite <- Ese.
+  assert (Hsp0 : bget spec se = bget bs se) by (rewrite Ese; apply Hspec; left; reflexivity). rewrite Hsp0.
+  destruct (assemble_session se (map frag_of ds) bs) as [Hout Hst].
+  destruct (run1 (bget bs se) (proj se (map frag_of ds))) as [st' outs] eqn:Er. cbn [fst snd] in Hout, Hst.
+  set (spec' := match st' with Some acc => bset spec se acc | None => spec end).
+  assert (Hspec_se : bget spec' se = st').
+  { unfold spec'. destruct st' as [acc|]; [apply bget_bset_same|].
+    rewrite Hsp0. apply (run1_none (proj se (map frag_of ds))). rewrite Er. reflexivity. }
+  assert (Hspec_other : forall t, t <> se -> bget spec' t = bget spec t).
+  { intros t Ht. unfold spec'. destruct st'; [apply bget_bset_other; auto|reflexivity]. }
+  assert (Hspec' : forall s2, In s2 r -> bget spec' (slot_session s2) = bget bs (slot_session s2)).
+  { intros s2 Hs2. rewrite Hspec_other; [apply Hspec; right; assumption|].
+    intros Heq. apply Hni. rewrite <- Heq. apply in_map. assumption. }
+  destruct (IH spec' (fun s Hs => Hsub s (or_intror Hs)) HndR Hspec') as [IH1 IH2].
+  destruct (judge_sessions (map oslot_of r) (map raw ds) (map msg_obs (snd (assemble bs (map frag_of ds)))) spec') as [okr spec''].
+  cbn [fst snd] in *. split.
+  - rewrite filter_msg_obs, Hout, IH1, map_map. cbn [msg_obs]. rewrite andb_true_r.
+    replace (map (fun x : list Z => msg_obs (se, x)) outs) with (map (fun m0 : list Z => msg_obs (se, m0)) outs) by reflexivity.
+    apply mobs_list_refl.
+  - intros t. rewrite IH2. cbn [existsb]. rewrite <- Ese.
+    destruct (existsb (fun s => slot_session s =? t) r) eqn:Ee.
+    + rewrite orb_true_r. reflexivity.
+    + rewrite orb_false_r. destruct (se =? t) eqn:Et.
+      * assert (se = t) by lia. subst t. rewrite Hspec_se. symmetry. exact Hst.
+      * apply Hspec_other. lia. Qed.
+
+Lemma known_sessions_ok bs :
+  forallb (known_session (map oslot_of present)) (map msg_obs (snd (assemble bs (map frag_of ds)))) = true.
+Proof. apply forallb_forall. intros x Hx. apply in_map_iff in Hx as ([s mm] & <- & Hin).
+  destruct (assemble_sessions_subset _ _ _ _ Hin) as (fr & Hfr & Hs). apply in_map_iff in Hfr as (d & <- & Hd).
+  destruct (ds_session d Hd) as (sl & Hsl & Hse & _). cbn [msg_obs fst known_session]. apply existsb_exists.
+  exists (oslot_of sl). split; [apply in_map; assumption|]. cbn [frag_of fr_session] in Hs.
+  destruct sl as [[[[[? ?] ?] ?] ?] ?]. cbn [oslot_of os_session slot_session] in *. lia. Qed.
+
+End Sessions.
